@@ -93,6 +93,9 @@ func init() {
 		k.PCall = 4
 		k.PWorldFallback = 12
 		k.PRich = 10
+		k.PBalanceOrigin = 12
+		k.SafeBalanceOrigins = true
+		k.OverdraftFlag = gen.Chance(t, "odflag", 50)
 		if tier == "thorough" {
 			k.MaxDepth = 4
 		}
@@ -189,6 +192,9 @@ func init() {
 		k.PCall = 3
 		k.ShapeFaults = gen.Chance(t, "shapefaults", 30)
 		k.PWorld = 10
+		k.PBalanceOrigin = 12
+		k.SafeBalanceOrigins = true
+		k.OverdraftFlag = gen.Chance(t, "odflag", 50)
 		if tier == "thorough" {
 			k.MaxDepth = 4
 		}
